@@ -31,12 +31,37 @@ class PhaseHooks:
         self.orig_dump = backup_utils._sqlite_backup  # pylint: disable=protected-access
         self.n = 0
         self.calls = []
+        self.during = set()  # call indices whose transfer overlaps the client (plans with a ('during', p) cut)
 
     def install(self):
         hooks = self
 
         def call_rsync(mgr, *args, **kwargs):
             hooks.point('rsync')
+            if hooks.n in hooks.during:
+                # "inside" a copy phase: the real rsync runs in a helper thread while the backup actor yields, so the client's
+                # events really overlap the transfer (timing-dependent by nature; thorough tier only)
+                import threading  # pylint: disable=import-outside-toplevel
+
+                box = {}
+
+                def transfer():
+                    try:
+                        with iotrace.passthrough():
+                            box['out'] = hooks.orig_rsync(mgr, *args, **kwargs)
+                    except BaseException as exc:  # noqa: BLE001
+                        box['exc'] = exc
+
+                helper = threading.Thread(target=transfer, daemon=True)
+                helper.start()
+                s = hooks.ref.get('sched')
+                if s is not None and iotrace.get_actor() == 'B':
+                    s.point(f'during:{hooks.n}')
+                helper.join()
+                hooks.after()
+                if 'exc' in box:
+                    raise box['exc']
+                return box.get('out')
             with iotrace.passthrough():
                 out = hooks.orig_rsync(mgr, *args, **kwargs)
             hooks.after()
@@ -237,7 +262,11 @@ def one_backup(site, plan, mut_ops, incremental, counters):
 
     segments = []
     for point, n in plan:
-        label = f'before:{point}' if point < 5 else 'after:4'
+        if isinstance(point, str):  # 'during:<call index>': the client runs while that transfer is in progress
+            label = point
+            hooks.during.add(int(point.split(':')[1]))
+        else:
+            label = f'before:{point}' if point < 5 else 'after:4'
         segments.append(('B', 'until', label))
         segments.append(('M', n + 1))  # n events executed: the (n+1)-th pick parks the client right before its next event
     segments.append(('B', None))
@@ -327,6 +356,11 @@ def run_cases(case):  # noqa: C901
                 for k in ks:
                     if rnd.random() < case.get('pair_p', 0.5):
                         plans.append([(p, k)])  # first k events at p, the rest after the backup
+            for call in case.get('during', []):  # overlap the client with the transfer itself (loose copy, packs copy, final copy)
+                for k in special + ks:
+                    plans.append([(f'during:{call}', k)])
+                plans.append([(f'during:{call}', K + 5)])
+                counters['placements-inside-a-transfer'] += len(special + ks) + 1
             for _ in range(case.get('ntriples', 3)):
                 p1 = rnd.randrange(NPOINTS - 1)
                 p2 = rnd.randrange(p1 + 1, NPOINTS)
@@ -352,7 +386,7 @@ def run_cases(case):  # noqa: C901
                 inconclusive = f'watchdog: {exc}'
                 break
             counters['backups'] += 1
-            counters[f'placement-at-point:{plan[0][0]}'] += 1
+            counters[f'placement-at-point:{plan[0][0]}'] += 1  # (or 'during:<n>')
             seen.add(common.digest([plan, mut_ops, target, incremental]))
             for mech, msg in probs[:2]:
                 vios.append(common.violation(mech, msg, {'backup': {'seed': seed, 'target': target, 'mut_ops': mut_ops, 'reader': reader,
